@@ -356,7 +356,7 @@ def make_project(jedi, opt, root, env):
     if opt == 'nosmart':
         return jedi.Project(root, smart_sys_path=False)
     if opt == 'sys_path+env':
-        return jedi.Project(root, sys_path=list(env.get_sys_path()) + [root])
+        return jedi.Project(root, sys_path=list((env or Procs.env('helper')).get_sys_path()) + [root])
     if opt == 'sys_path+nosmart':
         return jedi.Project(root, sys_path=[root], smart_sys_path=False)
     if opt == 'added+nosmart':
@@ -474,6 +474,22 @@ class Procs:
             else:
                 raise ValueError(kind)
         return cls.envs[kind]
+
+    @classmethod
+    def adopt(cls, kind, env):
+        """Watch `env` under the name `kind` from now on (jedi's cached default environment is
+        replaced by a new object every 10 minutes of wall time; whichever object the project
+        under test really uses is the one that must be observed)."""
+        old = cls.envs.get(kind)
+        if old is env:
+            return
+        if old is not None:
+            try:
+                old._get_subprocess()._kill()
+            except Exception:
+                pass
+        cls.envs[kind] = env
+        cls.watch.pop(kind, None)
 
     @classmethod
     def kill_helpers(cls):
@@ -790,12 +806,15 @@ PROJECT_CALLS = [('search', {}), ('search', {'all_scopes': True}), ('complete_se
 def _project_battery(world, opt, string, deep, only_call=None):
     """Project.search / complete_search run in the project's own (default) environment."""
     jedi = world.jedi
-    denv = world.env('default')
-    b = Battery(world, ['host', 'default'], deep)
     if opt == 'none':
         project = jedi.get_default_project(world.root)
     else:
-        project = make_project(jedi, opt, world.root, denv)
+        project = make_project(jedi, opt, world.root, None)
+    # no environment is passed anywhere: Project.get_environment() -> jedi's cached default
+    # environment (remembered by the Project object); that helper is the one to watch
+    denv = project.get_environment()
+    Procs.adopt('default', denv)
+    b = Battery(world, ['host', 'default'], deep)
     for m, kw in PROJECT_CALLS:
         label = ['Project.' + m, string, kw]
         if only_call is not None and label != only_call:
@@ -845,8 +864,8 @@ def _work(task):
     else:
         raise ValueError(kind)
     r = b.result()
-    if task.get('report_parsed'):
-        r['parsed'] = parsed_files(world)
+    # (jv.pool prunes parso's cache entries for scratch files after every task)
+    r['parsed'] = parsed_files(world)
     return r
 
 
@@ -1039,17 +1058,15 @@ def _levels(tier, autos, have_so):
                     for sym in syms:
                         for form in FORMS:
                             ts.append({'kind': 'form', 'variant': variant, 'cwd': cwd, 'env': env,
-                                       'opt': opt, 'sym': sym, 'form': form, 'deep': deep,
-                                       'report_parsed': form == FORMS[-1]})
+                                       'opt': opt, 'sym': sym, 'form': form, 'deep': deep})
                     for sp in specials:
                         ts.append({'kind': 'special', 'variant': variant, 'cwd': cwd, 'env': env,
-                                   'opt': opt, 'special': sp, 'deep': deep,
-                                   'report_parsed': True})
+                                   'opt': opt, 'special': sp, 'deep': deep})
         return ts
 
     def searches(variant, cwd, strings):
         return [{'kind': 'project', 'variant': variant, 'cwd': cwd, 'opt': opt, 'string': s,
-                 'deep': False, 'report_parsed': True} for opt in opts for s in strings]
+                 'deep': False} for opt in opts for s in strings]
 
     base_strings = ['func', 'K', 'K.attr', 'def func', 'class K', 'fix', '']
     strings = {}
